@@ -107,6 +107,10 @@ func Try(a app.App, ctx app.IOContext) (err error) {
 	go func() {
 		var catchErr error
 		defer parentScope.DoneTask()
+		// By now parentScope is closing (its Close waits for this goroutine) and its AppendError
+		// panics on a closed scope: a failed submission is recorded on the scope's context,
+		// which that Close reports.
+		errScope := parentScope.BaseContextScope()
 		catchErr = separatedScope.Wait()
 		// run finally
 		if deps.FinallyBody != "" {
@@ -125,7 +129,7 @@ func Try(a app.App, ctx app.IOContext) (err error) {
 				Lock:        nil,    // lock is unsupported
 				Wait:        nil,    // wait is unsupported
 			}); err != nil {
-				parentScope.AppendError(err)
+				errScope.AppendError(err)
 				return
 			}
 		}
@@ -146,7 +150,7 @@ func Try(a app.App, ctx app.IOContext) (err error) {
 				Lock:        nil,    // lock is unsupported
 				Wait:        nil,    // wait is unsupported
 			}); err != nil {
-				parentScope.AppendError(err)
+				errScope.AppendError(err)
 				return
 			}
 		}
@@ -167,7 +171,7 @@ func Try(a app.App, ctx app.IOContext) (err error) {
 				Lock:        nil,    // lock is unsupported
 				Wait:        nil,    // wait is unsupported
 			}); err != nil {
-				parentScope.AppendError(err)
+				errScope.AppendError(err)
 				return
 			}
 		}
